@@ -34,6 +34,10 @@ func planProjection(b band.Band) (M, []band.VerifChannel, error) {
 	for _, c := range s.DownlinkChannels {
 		dl = append(dl, chVal(c))
 	}
+	defdrs := []int{}
+	for _, d := range s.DataRates {
+		defdrs = append(defdrs, d.Index)
+	}
 	all := intsOrEmpty(b.GetUplinkChannelIndices())
 	get := []interface{}{}
 	for _, i := range all {
@@ -48,7 +52,7 @@ func planProjection(b band.Band) (M, []band.VerifChannel, error) {
 	}
 	return M{"extra": s.SupportsExtraChannels, "cfmin": s.CFListMinDR, "cfmax": s.CFListMaxDR, "ul": ul, "dl": dl, "all": all, "std": intsOrEmpty(b.GetStandardUplinkChannelIndices()), "custom": intsOrEmpty(b.GetCustomUplinkChannelIndices()),
 		"enabled": intsOrEmpty(b.GetEnabledUplinkChannelIndices()), "disabled": intsOrEmpty(b.GetDisabledUplinkChannelIndices()), "get": get,
-		"endrs": intsOrEmpty(b.GetEnabledUplinkDataRates())}, s.UplinkChannels, nil
+		"endrs": intsOrEmpty(b.GetEnabledUplinkDataRates()), "defdrs": defdrs}, s.UplinkChannels, nil
 }
 
 func lookupEvents(c *ctx, b band.Band, chans []band.VerifChannel) []interface{} {
@@ -165,8 +169,15 @@ func (c *ctx) applyRandomOp(b band.Band, n int, chans []band.VerifChannel, maxCh
 	case 0:
 		f := c.bandFreq(chans)
 		mn, mx := c.rnd.Intn(3), 3+c.rnd.Intn(5)
-		if c.rnd.Intn(2) == 0 {
+		switch c.rnd.Intn(8) {
+		case 0, 1, 2, 3:
 			mn, mx = 0, 5
+		case 4: // a single data-rate, possibly not adjacent to the ranges in use (FSK-only, LR-FHSS-only channels)
+			mn = c.rnd.Intn(16)
+			mx = mn
+		case 5: // a high range disjoint from the standard one
+			mn = 6 + c.rnd.Intn(6)
+			mx = mn + c.rnd.Intn(4)
 		}
 		ev["op"] = "add"
 		ev["f"] = freqVal(f)
@@ -353,6 +364,16 @@ func (c *ctx) planCase(name band.Name, nsets int, exhaustive bool) error {
 			_, chans, _ = planProjection(b)
 		}
 	}
+	if !exhaustive && len(chans) <= 16 && c.rnd.Intn(2) == 0 { // wide plans: custom channels beyond the first 16-channel block
+		target := 17 + c.rnd.Intn(24)
+		maxChans = target
+		for len(chans) < target {
+			if err := b.AddChannel(c.bandFreq(chans)/100*100+100, 0, 5); err != nil {
+				break
+			}
+			_, chans, _ = planProjection(b)
+		}
+	}
 	for i := 0; i < c.rnd.Intn(14); i++ {
 		c.applyRandomOp(b, len(chans), chans, maxChans)
 		_, chans, _ = planProjection(b)
@@ -444,6 +465,36 @@ func drvChPlan(c *ctx) error {
 			name := []band.Name{band.EU868, band.AS923, band.KR920, band.IN865, band.RU864, band.EU433, band.CN779, band.ISM2400}[i%8]
 			if err := c.planCase(name, 0, true); err != nil {
 				return err
+			}
+		}
+	case "drranges": // every band x every data-rate range a..b (0 <= a <= b <= 15) added as one custom channel to a fresh plan
+		for _, name := range bandNames[:14] {
+			for a := 0; a <= 15; a++ {
+				for bb := a; bb <= 15; bb++ {
+					b, err := band.GetConfig(name, false, lorawan.DwellTimeNoLimit)
+					if err != nil {
+						return err
+					}
+					proj, chans, err := planProjection(b)
+					if err != nil {
+						return err
+					}
+					if !proj["extra"].(bool) && (a > 0 || bb > 0) {
+						continue // fixed plans refuse AddChannel: one probe is enough
+					}
+					c.emit(M{"ev": "reset", "bname": b.Name(), "proj": proj})
+					f := c.bandFreq(chans)/100*100 + 100
+					mn, mx := a, bb
+					ev := M{"ev": "op", "bname": b.Name(), "op": "add", "f": freqVal(f), "min": mn, "max": mx}
+					ev["code"] = codeErr(func() error { return b.AddChannel(f, mn, mx) })
+					proj, chans, err = planProjection(b)
+					if err != nil {
+						return err
+					}
+					ev["proj"] = proj
+					ev["lookups"] = lookupEvents(c, b, chans)
+					c.emit(ev)
+				}
 			}
 		}
 	case "xlayer":
